@@ -466,3 +466,20 @@ Fixpoint graph_after (d : db) (ops : list hop) : db :=
   | [] => d
   | op :: r => graph_after (apply_hop d op) r
   end.
+
+(* ======================================================================================
+   Several sources: BaseParser.parse_files (database/input/__init__.py:58-61) runs ONE parser --
+   one BibliographyData, one growing wanted set -- over the sources in order; both engines call
+   it once with all their sources (pybtex/__init__.py:150-155, interpreter.py:288-295).
+   ====================================================================================== *)
+Definition read_sources_state (wanted : option (list str)) (sources : list (list (str * entry))) : rstate :=
+  fold_left (fun st src => fold_left (add_entry (match wanted with Some c => c | None => [] end)) src st)
+            sources ([], wanted, []).
+
+Definition read_sources (wanted : option (list str)) (sources : list (list (str * entry))) : db :=
+  fst (fst (read_sources_state wanted sources)).
+
+Definition bst_run_sources (sources : list db) (cits : list str) (minx : Z) (fs : list str) :=
+  bst_run (read_sources (Some cits) sources) cits minx fs.
+Definition format_bibliography_sources (sources : list db) (cits : list str) (minx : Z) (fs : list str) :=
+  format_bibliography (read_sources (Some cits) sources) cits minx fs.
